@@ -31,7 +31,7 @@ Lemma terminal_good : forall s, executes s = true -> ctxk (kmode s) = true -> In
   terminal s -> fired s = true -> good s.
 Proof.
   intros s He Hk I T Fi.
-  destruct (facts_all F HF) as (Hkw & Hrw & Hpk & Hsk & Hcl & Hsr & Hsc & Hel & Hef & Hms).
+  destruct (facts_all F HF) as (Hkw & Hrw & Hpk & Hsk & Hcl & Hsr & Hsc & Hel & Hef & Hms & Hcp).
   destruct I as (I1 & I2 & I3 & I4 & I5 & I6 & I7 & I8 & I9 & I10 & I12 & I13 & I15 & I14).
   pose proof (T LMain) as TM. pose proof (T LRunWatch) as TD.
   simpl in TM, TD. unfold main_step in TM. unfold runwatch_step in TD.
@@ -100,3 +100,66 @@ Qed.
 
 Lemma cancel_bounded_l : forall F sm km t sched, steps_taken F (init sm km t) sched <= 38 + 2 * tree_size t.
 Proof. intros. rewrite <- tw_size. apply run_bounded_l. Qed.
+
+(* ---------- concurrent Start() calls: at most one instance is ever spawned ---------- *)
+Definition a_inside (p : apc) : bool := match p with A2 | A3 => true | _ => false end.
+Definition AInv (s : ast) : Prop :=
+  (forall i, a_inside (a_pc s i) = true -> a_lock s = Some i) /\
+  (forall i, a_lock s = Some i -> a_inside (a_pc s i) = true) /\
+  (a_on s = true -> a_count s = 1) /\ (a_on s = false -> a_count s = 0) /\
+  (forall i, a_pc s i = A3 -> a_on s = false).
+
+Lemma a_set_same : forall f i p, a_set f i p i = p.
+Proof. intros; unfold a_set. now rewrite Nat.eqb_refl. Qed.
+Lemma a_set_other : forall f i p j, j <> i -> a_set f i p j = f j.
+Proof. intros; unfold a_set. apply Nat.eqb_neq in H. now rewrite H. Qed.
+
+Lemma ainv_step : forall F s i s', start_ok F = true -> AInv s -> a_step F s i = Some s' -> AInv s'.
+Proof.
+  intros F s i s' HF (I1 & I2 & I3 & I4 & I5) H.
+  unfold start_ok in HF. apply andb_true_iff in HF as [Hl Hr].
+  unfold a_step in H. rewrite Hl, Hr in H. simpl in H.
+  destruct (a_pc s i) eqn:Ep.
+  - (* A0 *) inversion H; subst; clear H. unfold AInv; simpl. repeat split; auto.
+    + intros j Hj. destruct (Nat.eq_dec j i) as [->|N]; [rewrite a_set_same in Hj; destruct (a_on s); discriminate|].
+      rewrite a_set_other in Hj by auto. auto.
+    + intros j Hj. destruct (Nat.eq_dec j i) as [->|N]; [specialize (I2 _ Hj); rewrite Ep in I2; discriminate|].
+      rewrite a_set_other by auto. auto.
+    + intros j Hj. destruct (Nat.eq_dec j i) as [->|N]; [rewrite a_set_same in Hj; destruct (a_on s); discriminate|].
+      rewrite a_set_other in Hj by auto. eauto.
+  - (* A1 *) destruct (a_lock s) eqn:El; [discriminate|]. inversion H; subst; clear H. unfold AInv; simpl. repeat split; auto.
+    + intros j Hj. destruct (Nat.eq_dec j i) as [->|N]; auto. rewrite a_set_other in Hj by auto.
+      specialize (I1 _ Hj). congruence.
+    + intros j Hj. inversion Hj; subst. now rewrite a_set_same.
+    + intros j Hj. destruct (Nat.eq_dec j i) as [->|N]; [rewrite a_set_same in Hj; discriminate|].
+      rewrite a_set_other in Hj by auto. eauto.
+  - (* A2 *) assert (L : a_lock s = Some i) by (apply I1; rewrite Ep; reflexivity).
+    destruct (a_on s) eqn:Eo; inversion H; subst; clear H; unfold AInv; simpl; repeat split; auto; try congruence.
+    + intros j Hj. destruct (Nat.eq_dec j i) as [->|N]; [rewrite a_set_same in Hj; discriminate|].
+      rewrite a_set_other in Hj by auto. specialize (I1 _ Hj). congruence.
+    + intros j Hj. discriminate.
+    + intros j Hj. destruct (Nat.eq_dec j i) as [->|N]; [rewrite a_set_same in Hj; discriminate|].
+      rewrite a_set_other in Hj by auto. specialize (I5 _ Hj). congruence.
+    + intros j Hj. destruct (Nat.eq_dec j i) as [->|N]; auto. rewrite a_set_other in Hj by auto. auto.
+    + intros j Hj. rewrite L in Hj. inversion Hj; subst. now rewrite a_set_same.
+  - (* A3 *) assert (L : a_lock s = Some i) by (apply I1; rewrite Ep; reflexivity).
+    pose proof (I5 _ Ep) as Off. inversion H; subst; clear H. unfold AInv; simpl. repeat split; auto; try discriminate.
+    + intros j Hj. destruct (Nat.eq_dec j i) as [->|N]; [rewrite a_set_same in Hj; discriminate|].
+      rewrite a_set_other in Hj by auto. specialize (I1 _ Hj). congruence.
+    + intros _. rewrite (I4 Off). reflexivity.
+    + intros j Hj. destruct (Nat.eq_dec j i) as [->|N]; [rewrite a_set_same in Hj; discriminate|].
+      rewrite a_set_other in Hj by auto. assert (X : a_inside (a_pc s j) = true) by (rewrite Hj; reflexivity).
+      specialize (I1 _ X). congruence.
+  - discriminate.
+Qed.
+
+Lemma at_most_one_instance_l : forall F, start_ok F = true -> forall sched, a_count (a_run F a_init sched) <= 1.
+Proof.
+  intros F HF sched.
+  assert (G : forall s, AInv s -> AInv (a_run F s sched)).
+  { induction sched as [|i r IH]; intros s I; simpl; auto. apply IH.
+    destruct (a_step F s i) eqn:E; auto. eapply ainv_step; eauto. }
+  assert (I0 : AInv a_init) by (unfold AInv, a_init; simpl; repeat split; intros; try discriminate; auto).
+  destruct (G _ I0) as (_ & _ & I3 & I4 & _).
+  destruct (a_on (a_run F a_init sched)); [rewrite I3 | rewrite I4]; auto.
+Qed.
